@@ -435,7 +435,17 @@ func (g *functionGenerator) genInstruction(inst ssa.Instruction) (insts []wat.In
 		insts = append(insts, g.genReturn(inst)...)
 
 	case ssa.Value:
+		// A register that was created ahead of its definition (getValue() on a
+		// forward reference, e.g. the operand of a loop-header phi) is reference
+		// counted: it is popped with a release below and released again in the
+		// epilogue. Inside an rc_disable window the value would be pushed without
+		// a retain, so the window must not apply to such a register.
+		rc_disabled := g.module.RcDisable
+		if pre, ok := g.locals_map[inst]; ok && rc_disabled && !pre.force_register && !g.none_rc_registers[pre.value] {
+			g.module.RcDisable = false
+		}
 		s, t := g.genValue(inst)
+		g.module.RcDisable = rc_disabled
 		if t != nil && !t.Equal(g.module.VOID) {
 			if v, ok := g.locals_map[inst]; ok {
 				if !v.value.Type().Equal(t) {
